@@ -58,8 +58,10 @@ def check_repeat(case):
         fails.append(fail("first-copy-differs", {"observed": gx[:L], "expected": fx}, key))
     if any(b <= a for a, b in zip(gx[:-1], gx[1:])):
         fails.append(fail("not-increasing", {"observed": gx}, key))
-    sc = max(1.0, abs(gx[-1]), abs(gx[0]))
-    tol = 0.0 if exact else 1e-9 * sc
+    import math
+    steps0 = [b - a for a, b in zip(fx[:-1], fx[1:])]
+    # rounding of the abscissae (a few ulp of their level, accumulated over r copies) + 1e-9 of a step
+    tol = 0.0 if exact else 8 * r * math.ulp(max(abs(gx[-1]), abs(gx[0]))) + 1e-9 * max(steps0)
     d0 = [b - a for a, b in zip(fx[:-1], fx[1:])]
     for c in range(r):
         seg = gx[c * L:(c + 1) * L]
@@ -90,8 +92,8 @@ def check_compose(case):
         x2, y2 = Weaver(np.array(x, dtype=float), np.array(y, dtype=float)).repeat(a).repeat(b).get()
         x3, y3 = Weaver(np.array(x, dtype=float), np.array(y, dtype=float)).repeat(a * b).get()
     g2, g3 = [float(v) for v in x2], [float(v) for v in x3]
-    sc = max(1.0, abs(g3[-1]))
-    tol = 0.0 if exact else 1e-9 * sc
+    import math
+    tol = 0.0 if exact else 8 * a * b * math.ulp(max(abs(g3[-1]), abs(g3[0]))) + 1e-9 * (g3[1] - g3[0])
     fails = []
     if len(g2) != len(g3) or any(abs(p - q) > tol for p, q in zip(g2, g3)) or [float(v) for v in y2] != [float(v) for v in y3]:
         fails.append(fail("composition", {"a": a, "b": b, "repeat_a_then_b": g2, "repeat_ab": g3}, key))
@@ -101,7 +103,9 @@ def check_compose(case):
 def harnesses(tier, seed):
     quick = tier == "quick"
     grids = [g for k in range(2, (5 if quick else 6) + 1) for g in A.grids(7, k)]
-    images = [("id", lambda v: v, True), ("x/4+1", lambda v: v / 4.0 + 1.0, True), ("0.1x+0.3", lambda v: 0.1 * v + 0.3, False)]
+    images = [("id", lambda v: v, True), ("x/4+1", lambda v: v / 4.0 + 1.0, True), ("0.1x+0.3", lambda v: 0.1 * v + 0.3, False),
+              ("1e-9x", lambda v: 1e-9 * v, False), ("1e6+x/1024", lambda v: 1e6 + v / 1024.0, True),
+              ("1e6+1e-3x(1+1e-6)", lambda v: 1e6 + 1e-3 * v * (1 + 1e-6 * v), False)]
     pairs = [(a, b) for a in range(1, 13) for b in range(1, 13) if a * b <= 12]
 
     def body(ctx):
